@@ -281,7 +281,10 @@ def conforms(spec_edges, comp_edges):
             if not pos_ok(se.pos, ce.pos, ce.dst):
                 why.append("cursor is at {%s}, contract says %s" % (",".join(sorted(ce.pos)), se.pos))
                 continue
-            if tuple(norm_effect_str(x) for x in se.effects) != tuple(norm_effect_str(x) for x in ce.effects):
+            req = {norm_effect_str(x) for x in se.effects if not x.endswith("?")}
+            opt = {norm_effect_str(x[:-1]) for x in se.effects if x.endswith("?")}
+            got = {norm_effect_str(x) for x in ce.effects}
+            if not (req <= got <= (req | opt)):
                 why.append("effects {%s} differ from contract {%s}" % ("; ".join(ce.effects), "; ".join(se.effects)))
                 continue
             ok = True
